@@ -8,3 +8,7 @@ import GscribModel.Props.C03
 import GscribModel.Props.C01
 import GscribModel.Props.C07
 import GscribModel.Props.C19
+import GscribModel.Props.C15
+import GscribModel.Props.C16
+import GscribModel.Props.C14
+import GscribModel.Props.C18
